@@ -1,20 +1,31 @@
 // factgen keys: regenerates lean/Galaxy/Generated/Keys.lean from
 //
 //	pkg/ipam/schedulerplugin/util/utils.go   key constants, genKey / PoolPrefix / PoolAppPrefix formats,
-//	                                         ParseKey / resolvePodKey shape, GetAppTypePrefix / GetAppType tables
+//	                                         ParseKey / resolvePodKey, GetAppTypePrefix / GetAppType tables, FormatKey
 //	pkg/utils/page/page.go                   ParsePage / ParseSize clamps, paginationResult / pagin arithmetic
-//	pkg/ipam/api/api.go                      convert field mapping, ReleaseIPs / ListIPs appType default, NewKeyObj call
+//	pkg/ipam/api/api.go                      convert field mapping, ReleaseIPs / ListIPs appType default and key wiring
 //	pkg/ipam/schedulerplugin/bind.go         Release re-checks (ip, key) before releasing
 //
-// Syntactic only (go/ast, no type checking).  Whenever a function no longer has the control skeleton this
-// translator knows, it exits non-zero with a message naming the function.
+// Every function is first NORMALISED (norm.go: a decision tree that is invariant under renaming, if/else vs guard
+// clauses, switch vs if chains, Sprintf vs concatenation, extracted / inlined private helpers, log and comment changes,
+// see /verif/harmless/NORMALISE.md) and then either
+//
+//   - a VALUE is read off the normal form (formats, tables, clamps, arithmetic, wiring facts) and emitted as a Lean def
+//     the model uses, or
+//   - the normal form is COMPARED with the normal form of the pinned reference source (ref/*.go.txt, a copy of the
+//     functions the hand-written model transcribes).
+//
+// When an item is not recognised in the current source its message goes to `shapeErrors` (pinned to [] by
+// Props.C11.fact_handler_shapes, so the proof obligation breaks) and the value is taken from the reference source: the
+// driver still builds and the correspondence run + monitors can look for a concrete failing input.
 package main
 
 import (
+	"embed"
 	"fmt"
-	"go/ast"
+	"go/parser"
 	"go/token"
-	"regexp"
+	"sort"
 	"strconv"
 	"strings"
 
@@ -28,7 +39,81 @@ const (
 	bindGo  = "pkg/ipam/schedulerplugin/bind.go"
 )
 
+//go:embed ref/*.txt
+var refFS embed.FS
+
 func main() { fg.Run("keys", gen) }
+
+// ---------- sources
+
+type sources struct {
+	u, pg, ap, bd *fg.Parsed
+	consts        map[string]string
+	isRef         bool
+}
+
+func loadRepo(repo string) (*sources, error) {
+	s := &sources{}
+	var err error
+	if s.u, err = fg.ParseFile(repo, utilsGo); err != nil {
+		return nil, err
+	}
+	if s.pg, err = fg.ParseFile(repo, pageGo); err != nil {
+		return nil, err
+	}
+	if s.ap, err = fg.ParseFile(repo, apiGo); err != nil {
+		return nil, err
+	}
+	if s.bd, err = fg.ParseFile(repo, bindGo); err != nil {
+		return nil, err
+	}
+	return s, nil
+}
+
+func loadRef() (*sources, error) { return loadRefWith(nil) }
+
+// loadRefWith parses the pinned reference sources after applying textual edits (old -> new per file; used by the
+// unit tests to build harmless and harmful variants).
+func loadRefWith(edit map[string][][2]string) (*sources, error) {
+	s := &sources{isRef: edit == nil}
+	one := func(name, path string) (*fg.Parsed, error) {
+		b, err := refFS.ReadFile("ref/" + name)
+		if err != nil {
+			return nil, err
+		}
+		txt := string(b)
+		for _, e := range edit[name] {
+			if !strings.Contains(txt, e[0]) {
+				return nil, fmt.Errorf("%s: edit source text not found: %q", name, e[0])
+			}
+			txt = strings.Replace(txt, e[0], e[1], 1)
+		}
+		fset := token.NewFileSet()
+		f, err := parser.ParseFile(fset, path, txt, parser.ParseComments)
+		if err != nil {
+			return nil, err
+		}
+		return &fg.Parsed{Fset: fset, File: f, Path: path}, nil
+	}
+	var err error
+	if s.u, err = one("utils.go.txt", utilsGo); err != nil {
+		return nil, err
+	}
+	if s.pg, err = one("page.go.txt", pageGo); err != nil {
+		return nil, err
+	}
+	if s.ap, err = one("api.go.txt", apiGo); err != nil {
+		return nil, err
+	}
+	if s.bd, err = one("bind.go.txt", bindGo); err != nil {
+		return nil, err
+	}
+	return s, nil
+}
+
+func tree(p *fg.Parsed, recv, name string) (*Node, error) {
+	return NewNormaliser(p).Tree(recv, name)
+}
 
 // ---------- Lean emission helpers
 
@@ -62,740 +147,6 @@ func strList(l []string) string {
 	return "[" + strings.Join(q, ", ") + "]"
 }
 
-func norm(s string) string { return strings.Join(strings.Fields(s), " ") }
-
-// ---------- Sprintf translation: only %s verbs and literal text
-
-var sprintfArgNames = map[string]string{
-	"poolPrefix":      "poolPrefix",
-	"prefix":          "pfx",
-	"k.PoolName":      "poolName",
-	"k.AppTypePrefix": "tp",
-	"k.Namespace":     "ns",
-	"k.AppName":       "app",
-	"k.PodName":       "pod",
-}
-
-// sprintfLean turns fmt.Sprintf("<fmt>", args...) into a Lean List-Char append expression and returns the
-// Lean parameter names it uses (in first-use order, constants excluded).
-func sprintfLean(p *fg.Parsed, call *ast.CallExpr) (string, []string, error) {
-	if p.Src(call.Fun) != "fmt.Sprintf" || len(call.Args) < 1 {
-		return "", nil, fmt.Errorf("not a fmt.Sprintf call: %s", p.Src(call))
-	}
-	bl, ok := call.Args[0].(*ast.BasicLit)
-	if !ok || bl.Kind != token.STRING {
-		return "", nil, fmt.Errorf("Sprintf format is not a literal: %s", p.Src(call))
-	}
-	format, err := strconv.Unquote(bl.Value)
-	if err != nil {
-		return "", nil, err
-	}
-	args := call.Args[1:]
-	var segs, params []string
-	seen := map[string]bool{}
-	lit := ""
-	flush := func() {
-		if lit != "" {
-			segs = append(segs, chars(lit))
-			lit = ""
-		}
-	}
-	ai := 0
-	for i := 0; i < len(format); i++ {
-		if format[i] != '%' {
-			lit += string(format[i])
-			continue
-		}
-		if i+1 >= len(format) || format[i+1] != 's' {
-			return "", nil, fmt.Errorf("unsupported verb in format %q", format)
-		}
-		i++
-		if ai >= len(args) {
-			return "", nil, fmt.Errorf("too few arguments for format %q", format)
-		}
-		flush()
-		name, ok := sprintfArgNames[p.Src(args[ai])]
-		if !ok {
-			return "", nil, fmt.Errorf("unknown Sprintf argument %s in %s", p.Src(args[ai]), p.Src(call))
-		}
-		segs = append(segs, name)
-		if name != "poolPrefix" && !seen[name] {
-			seen[name] = true
-			params = append(params, name)
-		}
-		ai++
-	}
-	flush()
-	if ai != len(args) {
-		return "", nil, fmt.Errorf("too many arguments for format %q", format)
-	}
-	if len(segs) == 0 {
-		return "[]", params, nil
-	}
-	return strings.Join(segs, " ++ "), params, nil
-}
-
-// skeleton prints a block with every fmt.Sprintf(...) call replaced by §<n>; returns the calls.
-func skeleton(p *fg.Parsed, body *ast.BlockStmt) (string, []*ast.CallExpr) {
-	var calls []*ast.CallExpr
-	ast.Inspect(body, func(n ast.Node) bool {
-		if c, ok := n.(*ast.CallExpr); ok && p.Src(c.Fun) == "fmt.Sprintf" {
-			calls = append(calls, c)
-			return false
-		}
-		return true
-	})
-	src := p.Src(body)
-	for i, c := range calls {
-		src = strings.Replace(src, p.Src(c), fmt.Sprintf("§%d", i), 1)
-	}
-	return norm(src), calls
-}
-
-func defFn(name string, params []string, body string) string {
-	ps := ""
-	if len(params) > 0 {
-		ps = " (" + strings.Join(params, " ") + " : List Char)"
-	}
-	return fmt.Sprintf("def %s%s : List Char :=\n  %s\n", name, ps, body)
-}
-
-// ---------- integer expression translation (page arithmetic)
-
-func leanIdent(s string) string {
-	switch s {
-	case "end":
-		return "end_"
-	case "DefaultSize":
-		return "defaultSize"
-	}
-	return s
-}
-
-func intExpr(p *fg.Parsed, e ast.Expr) (string, error) {
-	switch x := e.(type) {
-	case *ast.ParenExpr:
-		return intExpr(p, x.X)
-	case *ast.Ident:
-		return leanIdent(x.Name), nil
-	case *ast.BasicLit:
-		if x.Kind == token.INT {
-			return x.Value, nil
-		}
-	case *ast.CallExpr:
-		if id, ok := x.Fun.(*ast.Ident); ok && id.Name == "min" && len(x.Args) == 2 {
-			a, err := intExpr(p, x.Args[0])
-			if err != nil {
-				return "", err
-			}
-			b, err := intExpr(p, x.Args[1])
-			if err != nil {
-				return "", err
-			}
-			return fmt.Sprintf("(min %s %s)", a, b), nil
-		}
-	case *ast.BinaryExpr:
-		a, err := intExpr(p, x.X)
-		if err != nil {
-			return "", err
-		}
-		b, err := intExpr(p, x.Y)
-		if err != nil {
-			return "", err
-		}
-		switch x.Op {
-		case token.ADD:
-			return fmt.Sprintf("(%s + %s)", a, b), nil
-		case token.SUB:
-			return fmt.Sprintf("(%s - %s)", a, b), nil
-		case token.MUL:
-			return fmt.Sprintf("(%s * %s)", a, b), nil
-		case token.QUO:
-			// Go integer division truncates toward zero
-			return fmt.Sprintf("(Int.tdiv %s %s)", a, b), nil
-		case token.LSS:
-			return fmt.Sprintf("(%s < %s)", a, b), nil
-		case token.LEQ:
-			return fmt.Sprintf("(%s ≤ %s)", a, b), nil
-		case token.GTR:
-			return fmt.Sprintf("(%s > %s)", a, b), nil
-		case token.GEQ:
-			return fmt.Sprintf("(%s ≥ %s)", a, b), nil
-		case token.EQL:
-			return fmt.Sprintf("(%s = %s)", a, b), nil
-		}
-	}
-	return "", fmt.Errorf("unsupported integer expression %s", p.Src(e))
-}
-
-// clampFn translates ParsePage / ParseSize:
-//
-//	var ( v = <default>; err error )
-//	if s != "" { v, err = strconv.Atoi(s); if err != nil || C1 { v = E1 } else if C2 { v = E2 } }
-//	return v
-//
-// into  default  and  clamp v := if C1 then E1 else if C2 then E2 else v.
-func clampFn(p *fg.Parsed, fname, v, s string) (dflt, clamp string, err error) {
-	fd, err := p.Fn("", fname)
-	if err != nil {
-		return "", "", err
-	}
-	bad := func(why string) (string, string, error) {
-		return "", "", fmt.Errorf("%s: %s no longer has the shape `var %s = d; if %s != \"\" {%s, err = strconv.Atoi(%s); if err != nil || c {..} else if c {..}}; return %s` (%s)",
-			pageGo, fname, v, s, v, s, v, why)
-	}
-	if len(fd.Body.List) != 3 {
-		return bad("statement count")
-	}
-	ds, ok := fd.Body.List[0].(*ast.DeclStmt)
-	if !ok {
-		return bad("no var block")
-	}
-	for _, sp := range ds.Decl.(*ast.GenDecl).Specs {
-		vs := sp.(*ast.ValueSpec)
-		for i, n := range vs.Names {
-			if n.Name == v && i < len(vs.Values) {
-				dflt, err = intExpr(p, vs.Values[i])
-				if err != nil {
-					return "", "", err
-				}
-			}
-		}
-	}
-	if dflt == "" {
-		return bad("default value")
-	}
-	ifs, ok := fd.Body.List[1].(*ast.IfStmt)
-	if !ok || norm(p.Src(ifs.Cond)) != s+` != ""` || ifs.Else != nil || len(ifs.Body.List) != 2 {
-		return bad("outer if")
-	}
-	if norm(p.Src(ifs.Body.List[0])) != fmt.Sprintf("%s, err = strconv.Atoi(%s)", v, s) {
-		return bad("Atoi assignment")
-	}
-	if norm(p.Src(fd.Body.List[2])) != "return "+v {
-		return bad("return")
-	}
-	chain, ok := ifs.Body.List[1].(*ast.IfStmt)
-	if !ok {
-		return bad("clamp chain")
-	}
-	var out strings.Builder
-	first := true
-	for chain != nil {
-		cond := chain.Cond
-		if first {
-			be, ok := cond.(*ast.BinaryExpr)
-			if !ok || be.Op != token.LOR || norm(p.Src(be.X)) != "err != nil" {
-				return bad("first condition must be `err != nil || ...`")
-			}
-			cond = be.Y
-			first = false
-		}
-		c, err := intExpr(p, cond)
-		if err != nil {
-			return "", "", err
-		}
-		if len(chain.Body.List) != 1 {
-			return bad("clamp body")
-		}
-		as, ok := chain.Body.List[0].(*ast.AssignStmt)
-		if !ok || as.Tok != token.ASSIGN || len(as.Lhs) != 1 || p.Src(as.Lhs[0]) != v {
-			return bad("clamp body assignment")
-		}
-		e, err := intExpr(p, as.Rhs[0])
-		if err != nil {
-			return "", "", err
-		}
-		fmt.Fprintf(&out, "if %s then %s else ", c, e)
-		switch el := chain.Else.(type) {
-		case nil:
-			chain = nil
-		case *ast.IfStmt:
-			chain = el
-		default:
-			return bad("else branch")
-		}
-	}
-	out.WriteString(v)
-	return dflt, out.String(), nil
-}
-
-// ---------- the translator
-
-func gen(repo string) (map[string]string, error) {
-	u, err := fg.ParseFile(repo, utilsGo)
-	if err != nil {
-		return nil, err
-	}
-	pg, err := fg.ParseFile(repo, pageGo)
-	if err != nil {
-		return nil, err
-	}
-	ap, err := fg.ParseFile(repo, apiGo)
-	if err != nil {
-		return nil, err
-	}
-	bd, err := fg.ParseFile(repo, bindGo)
-	if err != nil {
-		return nil, err
-	}
-	// Shapes of the HTTP handlers (api.go) the model depends on only through Boolean facts are reported softly: the
-	// fact becomes false and the message goes to `shapeErrors` (pinned to [] by Props.C11.fact_api_shape), so the
-	// proof obligation breaks but the driver still builds and the monitors can look for a concrete failing input.
-	var shapeErrs []string
-	var b strings.Builder
-	b.WriteString(fg.Header("key codec constants, formats, case tables; paging arithmetic; API list/release shape (C11)",
-		utilsGo, pageGo, apiGo, bindGo))
-	b.WriteString("set_option linter.unusedVariables false\nnamespace Galaxy.Generated.Keys\n\n")
-
-	// --- constants
-	consts := map[string]string{}
-	for _, c := range []struct{ goName, lean string }{
-		{"poolPrefix", "poolPrefix"}, {"DeploymentPrefixKey", "dpPrefix"}, {"StatefulsetPrefixKey", "stsPrefix"},
-		{"NoRefAppName", "noRefAppName"}, {"NoRefAppTypePrefix", "noRefAppTypePrefix"}} {
-		v, err := u.ConstString(c.goName)
-		if err != nil {
-			return nil, err
-		}
-		consts[c.goName] = v
-		fmt.Fprintf(&b, "/-- `%s = %s` -/\ndef %s : List Char := %s\n", c.goName, strconv.Quote(v), c.lean, chars(v))
-	}
-	b.WriteString("\n")
-
-	// --- genKey
-	fd, err := u.Fn("KeyObj", "genKey")
-	if err != nil {
-		return nil, err
-	}
-	sk, calls := skeleton(u, fd.Body)
-	wantGenKey := norm(`{ var prefix string
-		if k.PoolName != "" { prefix = §0
-			if k.AppName == "" { k.KeyInDB = prefix
-				return } }
-		if k.PoolName == "" && k.AppName == "" && k.Namespace == "" { k.KeyInDB = ""
-			return }
-		k.KeyInDB = §1 }`)
-	if sk != wantGenKey || len(calls) != 2 {
-		return nil, fmt.Errorf("%s: KeyObj.genKey no longer has the known control skeleton\n got: %s\nwant: %s", utilsGo, sk, wantGenKey)
-	}
-	e0, p0, err := sprintfLean(u, calls[0])
-	if err != nil {
-		return nil, err
-	}
-	e1, p1, err := sprintfLean(u, calls[1])
-	if err != nil {
-		return nil, err
-	}
-	if strings.Join(p0, ",") != "poolName" || strings.Join(p1, ",") != "pfx,tp,ns,app,pod" {
-		return nil, fmt.Errorf("%s: genKey Sprintf arguments changed: %v %v", utilsGo, p0, p1)
-	}
-	b.WriteString("/-- genKey: `prefix = Sprintf(..)` when `PoolName != \"\"`; returned alone when `AppName == \"\"` -/\n")
-	b.WriteString(defFn("genKeyPoolPrefix", p0, e0))
-	b.WriteString("/-- genKey: the full key; `\"\"` instead when pool, app and namespace are all empty -/\n")
-	b.WriteString(defFn("genKeyFull", p1, e1))
-
-	// --- PoolPrefix / PoolAppPrefix
-	fd, err = u.Fn("KeyObj", "PoolPrefix")
-	if err != nil {
-		return nil, err
-	}
-	sk, calls = skeleton(u, fd.Body)
-	if sk != norm(`{ if k.PoolName != "" { return §0 }
-		return §1 }`) || len(calls) != 2 {
-		return nil, fmt.Errorf("%s: KeyObj.PoolPrefix no longer has the known control skeleton: %s", utilsGo, sk)
-	}
-	e0, p0, err = sprintfLean(u, calls[0])
-	if err != nil {
-		return nil, err
-	}
-	e1, p1, err = sprintfLean(u, calls[1])
-	if err != nil {
-		return nil, err
-	}
-	if strings.Join(p0, ",") != "poolName" || strings.Join(p1, ",") != "tp,ns,app" {
-		return nil, fmt.Errorf("%s: PoolPrefix Sprintf arguments changed: %v %v", utilsGo, p0, p1)
-	}
-	b.WriteString("/-- PoolPrefix(), `PoolName != \"\"` branch -/\n" + defFn("poolPrefixPool", p0, e0))
-	b.WriteString("/-- PoolPrefix(), no pool -/\n" + defFn("poolPrefixApp", p1, e1))
-	fd, err = u.Fn("KeyObj", "PoolAppPrefix")
-	if err != nil {
-		return nil, err
-	}
-	sk, calls = skeleton(u, fd.Body)
-	if sk != norm(`{ if k.PoolName != "" { return §0 }
-		return k.PoolPrefix() }`) || len(calls) != 1 {
-		return nil, fmt.Errorf("%s: KeyObj.PoolAppPrefix no longer has the known control skeleton: %s", utilsGo, sk)
-	}
-	e0, p0, err = sprintfLean(u, calls[0])
-	if err != nil {
-		return nil, err
-	}
-	if strings.Join(p0, ",") != "poolName,tp,ns,app" {
-		return nil, fmt.Errorf("%s: PoolAppPrefix Sprintf arguments changed: %v", utilsGo, p0)
-	}
-	b.WriteString("/-- PoolAppPrefix(), `PoolName != \"\"` branch (else PoolPrefix()) -/\n" + defFn("poolAppPrefixPool", p0, e0))
-	b.WriteString("\n")
-
-	// --- resolvePodKey
-	fd, err = u.Fn("", "resolvePodKey")
-	if err != nil {
-		return nil, err
-	}
-	src := norm(u.Src(fd.Body))
-	re := regexp.MustCompile(`^\{ parts := strings\.Split\(key, ("(?:[^"\\]|\\.)*")\) if len\(parts\) == (\d+) \{ return parts\[(\d+)\] \+ ("(?:[^"\\]|\\.)*"), parts\[(\d+)\], parts\[(\d+)\], parts\[(\d+)\] \} return "", "", "", "" \}$`)
-	m := re.FindStringSubmatch(src)
-	if m == nil {
-		return nil, fmt.Errorf("%s: resolvePodKey no longer has the shape `parts := strings.Split(key, sep); if len(parts) == n { return parts[i]+suffix, parts[j], parts[k], parts[l] }; return \"\",\"\",\"\",\"\"`: %s", utilsGo, src)
-	}
-	sepS, _ := strconv.Unquote(m[1])
-	sufS, _ := strconv.Unquote(m[4])
-	if len([]rune(sepS)) != 1 {
-		return nil, fmt.Errorf("%s: resolvePodKey separator %q is not a single character", utilsGo, sepS)
-	}
-	fmt.Fprintf(&b, "/-- resolvePodKey: `strings.Split(key, %s)` -/\ndef sep : Char := %s\n", m[1], strings.Trim(chars(sepS), "[]"))
-	fmt.Fprintf(&b, "/-- resolvePodKey: `len(parts) == %s` -/\ndef partCount : Nat := %s\n", m[2], m[2])
-	fmt.Fprintf(&b, "/-- resolvePodKey returns (parts[%s]+suffix, parts[%s], parts[%s], parts[%s]): indices of\n    (appTypePrefix, appName, podName, namespace) -/\n", m[3], m[5], m[6], m[7])
-	fmt.Fprintf(&b, "def resolveIdx : Nat × Nat × Nat × Nat := (%s, %s, %s, %s)\n", m[3], m[5], m[6], m[7])
-	fmt.Fprintf(&b, "def resolveTypeSuffix : List Char := %s\n\n", chars(sufS))
-
-	// --- ParseKey
-	fd, err = u.Fn("", "ParseKey")
-	if err != nil {
-		return nil, err
-	}
-	src = norm(u.Src(fd.Body))
-	wantParse := norm(`{ keyObj := &KeyObj{KeyInDB: key}
-		removedPoolKey := key
-		if strings.HasPrefix(key, poolPrefix) { parts := strings.SplitN(key[len(poolPrefix):], SEP, 2)
-			if len(parts) != 2 { return keyObj }
-			keyObj.PoolName = parts[0]
-			removedPoolKey = parts[1] }
-		keyObj.AppTypePrefix, keyObj.AppName, keyObj.PodName, keyObj.Namespace = resolvePodKey(removedPoolKey)
-		return keyObj }`)
-	// comments inside the body are not printed by go/printer for a sub-node; strip them defensively anyway
-	src = regexp.MustCompile(`//[^\n]*`).ReplaceAllString(src, "")
-	if norm(src) != strings.Replace(wantParse, "SEP", m[1], 1) {
-		return nil, fmt.Errorf("%s: ParseKey no longer has the known shape (HasPrefix poolPrefix; SplitN(rest, sep, 2); resolvePodKey into AppTypePrefix, AppName, PodName, Namespace)\n got: %s", utilsGo, src)
-	}
-	b.WriteString("/-- ParseKey: `keyObj.AppTypePrefix, keyObj.AppName, keyObj.PodName, keyObj.Namespace = resolvePodKey(..)`,\n    pool split is `SplitN(key[len(poolPrefix):], sep, 2)` with both parts required -/\n")
-	b.WriteString("def parseKeyAssign : List String := " + strList([]string{"AppTypePrefix", "AppName", "PodName", "Namespace"}) + "\n\n")
-
-	// --- GetAppTypePrefix
-	fd, err = u.Fn("", "GetAppTypePrefix")
-	if err != nil {
-		return nil, err
-	}
-	exact, lowerT, dfl, err := appTypePrefixTables(u, fd, consts)
-	if err != nil {
-		return nil, err
-	}
-	b.WriteString("/-- GetAppTypePrefix: comparisons on the kind as given (before lower-casing) -/\n")
-	b.WriteString("def appTypePrefixExact : List (List Char × List Char) := " + pairList(exact) + "\n")
-	b.WriteString("/-- GetAppTypePrefix: comparisons on `strings.ToLower(kind)` -/\n")
-	b.WriteString("def appTypePrefixLower : List (List Char × List Char) := " + pairList(lowerT) + "\n")
-	b.WriteString("/-- GetAppTypePrefix: default `lower + suffix` -/\n")
-	b.WriteString("def appTypePrefixSuffix : List Char := " + chars(dfl) + "\n")
-
-	// --- GetAppType
-	fd, err = u.Fn("", "GetAppType")
-	if err != nil {
-		return nil, err
-	}
-	tbl, drop, err := appTypeTable(u, fd, consts)
-	if err != nil {
-		return nil, err
-	}
-	b.WriteString("/-- GetAppType: switch cases -/\n")
-	b.WriteString("def appTypeTable : List (List Char × List Char) := " + pairList(tbl) + "\n")
-	fmt.Fprintf(&b, "/-- GetAppType default: `appTypePrefix[:len(appTypePrefix)-%d]` when non-empty, else \"\" -/\ndef appTypeDrop : Nat := %d\n\n", drop, drop)
-
-	// --- FormatKey: owner kinds compared
-	fd, err = u.Fn("", "FormatKey")
-	if err != nil {
-		return nil, err
-	}
-	src = norm(u.Src(fd.Body))
-	for _, need := range []string{
-		`if len(pod.OwnerReferences) == 0 { keyObj.AppName = NoRefAppName keyObj.AppTypePrefix = NoRefAppTypePrefix }`,
-		`if pod.OwnerReferences[0].Kind == "StatefulSet" { keyObj.AppName = pod.OwnerReferences[0].Name keyObj.AppTypePrefix = StatefulsetPrefixKey }`,
-		`else if pod.OwnerReferences[0].Kind != "ReplicaSet" {`,
-		`keyObj.AppTypePrefix = GetAppTypePrefix(pod.OwnerReferences[0].Kind)`,
-		`deploymentName := resolveDeploymentName(pod) if deploymentName == "" { return keyObj, fmt.Errorf("unsupported app type") } keyObj.AppName = deploymentName`,
-		`keyObj.AppTypePrefix = DeploymentPrefixKey`,
-		`pool := constant.GetPool(pod.Annotations)`,
-		`PoolName: pool, PodName: pod.Name, Namespace: pod.Namespace`,
-	} {
-		if !strings.Contains(src, need) {
-			return nil, fmt.Errorf("%s: FormatKey no longer contains `%s`", utilsGo, need)
-		}
-	}
-	fd, err = u.Fn("", "resolveDeploymentName")
-	if err != nil {
-		return nil, err
-	}
-	src = norm(regexp.MustCompile(`//[^\n]*`).ReplaceAllString(u.Src(fd.Body), ""))
-	wantRDN := norm(`{ if len(pod.OwnerReferences) == 1 && pod.OwnerReferences[0].Kind == "ReplicaSet" {
-		ownerName := pod.OwnerReferences[0].Name
-		lastIndex := strings.LastIndex(ownerName, "-")
-		if lastIndex == -1 { return ownerName }
-		return ownerName[:lastIndex] }
-		return "" }`)
-	if src != wantRDN {
-		return nil, fmt.Errorf("%s: resolveDeploymentName no longer has the known shape: %s", utilsGo, src)
-	}
-	b.WriteString("/-- FormatKey / resolveDeploymentName: the owner kinds compared literally and the replica-set name cut -/\n")
-	b.WriteString("def kindStatefulSet : List Char := " + chars("StatefulSet") + "\n")
-	b.WriteString("def kindReplicaSet : List Char := " + chars("ReplicaSet") + "\n")
-	b.WriteString("def rsCut : Char := '-'\n\n")
-
-	// --- NewKeyObj parameter wiring
-	fd, err = u.Fn("", "NewKeyObj")
-	if err != nil {
-		return nil, err
-	}
-	var params []string
-	for _, f := range fd.Type.Params.List {
-		for _, n := range f.Names {
-			params = append(params, n.Name)
-		}
-	}
-	src = norm(u.Src(fd.Body))
-	if !strings.Contains(src, "AppTypePrefix: appTypePrefix, AppName: appName, PodName: podName, Namespace: namespace, PoolName: poolName") ||
-		!strings.Contains(src, "k.genKey()") {
-		return nil, fmt.Errorf("%s: NewKeyObj no longer wires its parameters to the same-named fields and calls genKey: %s", utilsGo, src)
-	}
-	b.WriteString("/-- NewKeyObj(appTypePrefix, namespace, appName, podName, poolName): parameter order; each goes to the same-named field -/\n")
-	b.WriteString("def newKeyObjParams : List String := " + strList(params) + "\n\n")
-
-	// --- api.go: convert
-	fd, err = ap.Fn("", "convert")
-	if err != nil {
-		return nil, err
-	}
-	src = norm(ap.Src(fd.Body))
-	if !strings.Contains(src, "keyObj := util.ParseKey(fip.Key)") {
-		shapeErrs = append(shapeErrs, fmt.Sprintf("%s: convert no longer parses fip.Key with util.ParseKey", apiGo))
-	}
-	var conv [][2]string
-	ast.Inspect(fd.Body, func(n ast.Node) bool {
-		if cl, ok := n.(*ast.CompositeLit); ok && ap.Src(cl.Type) == "FloatingIP" {
-			for _, el := range cl.Elts {
-				kv := el.(*ast.KeyValueExpr)
-				k := ap.Src(kv.Key)
-				switch k {
-				case "Namespace", "AppName", "PodName", "PoolName", "AppType", "IP":
-					conv = append(conv, [2]string{k, norm(ap.Src(kv.Value))})
-				}
-			}
-			return false
-		}
-		return true
-	})
-	b.WriteString("/-- convert: API entry field := expression over the parsed key -/\n")
-	b.WriteString("def convertFields : List (String × String) := [")
-	for i, kv := range conv {
-		if i > 0 {
-			b.WriteString(", ")
-		}
-		fmt.Fprintf(&b, "(%s, %s)", fg.LeanStr(kv[0]), fg.LeanStr(kv[1]))
-	}
-	b.WriteString("]\n\n")
-
-	// --- api.go: ReleaseIPs / ListIPs appType default
-	rel, relArgs, err := appTypeDefault(ap, "ReleaseIPs", "temp.AppType", "temp.")
-	if err != nil {
-		shapeErrs = append(shapeErrs, err.Error())
-		rel, relArgs = false, nil
-	}
-	if err := releaseLoopsShape(ap); err != nil {
-		shapeErrs = append(shapeErrs, err.Error())
-	}
-	lst, lstArgs, err := appTypeDefault(ap, "ListIPs", "appType", "")
-	if err != nil {
-		shapeErrs = append(shapeErrs, err.Error())
-		lst, lstArgs = false, nil
-	}
-	b.WriteString("/-- ReleaseIPs: `if temp.AppType == \"\" { prefix = sts } else { prefix = GetAppTypePrefix(temp.AppType) }` —\n    true iff the statefulset default survives (the GetAppTypePrefix assignment is in the else branch) -/\n")
-	b.WriteString("def releaseDefaultsToSts : Bool := " + fg.LeanBool(rel) + "\n")
-	b.WriteString("/-- ReleaseIPs: arguments of `util.NewKeyObj(...)` (entry fields, `temp.` stripped) -/\n")
-	b.WriteString("def releaseKeyArgs : List String := " + strList(relArgs) + "\n")
-	b.WriteString("/-- ReleaseIPs / ListIPs: the expressions handed to util.GetAppTypePrefix inside the handler (exactly one each:\n    the entry's / query's app type itself, with no normalisation in between); [] when the handler does not call it directly -/\n")
-	b.WriteString("def releasePrefixArgs : List String := " + strList(prefixArgs(ap, "ReleaseIPs")) + "\n")
-	b.WriteString("def listPrefixArgs : List String := " + strList(prefixArgs(ap, "ListIPs")) + "\n")
-	b.WriteString("/-- ListIPs (query without keyword): same default -/\n")
-	b.WriteString("def listDefaultsToSts : Bool := " + fg.LeanBool(lst) + "\n")
-	b.WriteString("def listKeyArgs : List String := " + strList(lstArgs) + "\n\n")
-
-	// --- bind.go Release: matches on (ip, key)
-	fd, err = bd.Fn("FloatingIPPlugin", "Release")
-	if err != nil {
-		return nil, err
-	}
-	iByIP := bd.StmtIndex(fd.Body, "p.ipam.ByIP(r.IP)")
-	iCmp := bd.StmtIndex(fd.Body, "fip.Key != k.KeyInDB")
-	iRel := bd.StmtIndex(fd.Body, "p.ipam.Release(")
-	exactRel := bd.StmtIndex(fd.Body, "p.ipam.Release(k.KeyInDB, r.IP)") == iRel
-	iRes := bd.StmtIndex(fd.Body, "p.reserveIP(")
-	guard := exactRel && iByIP >= 0 && iCmp > iByIP && iRel > iCmp && (iRes < 0 || iRes > iCmp)
-	if guard {
-		// the guard must return on mismatch in every branch
-		ifs, ok := fd.Body.List[iCmp].(*ast.IfStmt)
-		if !ok || norm(bd.Src(ifs.Cond)) != "fip.Key != k.KeyInDB" {
-			guard = false
-		} else if _, ok := ifs.Body.List[len(ifs.Body.List)-1].(*ast.ReturnStmt); !ok {
-			guard = false
-		}
-	}
-	if iRel < 0 {
-		return nil, fmt.Errorf("%s: FloatingIPPlugin.Release no longer calls p.ipam.Release", bindGo)
-	}
-	b.WriteString("/-- FloatingIPPlugin.Release: re-reads the record by ip under the pod lock and returns unless `fip.Key == k.KeyInDB`\n    before any mutating call; the release itself is `ipam.Release(k.KeyInDB, r.IP)` -/\n")
-	b.WriteString("def releaseMatchesKey : Bool := " + fg.LeanBool(guard) + "\n\n")
-
-	// --- page.go
-	dsz, err := pg.ConstInt("DefaultSize")
-	if err != nil {
-		return nil, err
-	}
-	fmt.Fprintf(&b, "/-- page.DefaultSize -/\ndef defaultSize : Int := %d\n", dsz)
-	d, c, err := clampFn(pg, "ParsePage", "page", "pageStr")
-	if err != nil {
-		return nil, err
-	}
-	fmt.Fprintf(&b, "/-- ParsePage: value when the parameter is empty -/\ndef parsePageDefault : Int := %s\n", d)
-	fmt.Fprintf(&b, "/-- ParsePage: what happens to a successfully parsed integer (Atoi error ⇒ first branch's value) -/\ndef parsePageClamp (page : Int) : Int :=\n  %s\n", c)
-	pageErr, err := firstBranchValue(c)
-	if err != nil {
-		return nil, err
-	}
-	fmt.Fprintf(&b, "def parsePageOnError : Int := %s\n", pageErr)
-	d, c, err = clampFn(pg, "ParseSize", "size", "sizeStr")
-	if err != nil {
-		return nil, err
-	}
-	fmt.Fprintf(&b, "/-- ParseSize: value when the parameter is empty -/\ndef parseSizeDefault : Int := %s\n", d)
-	fmt.Fprintf(&b, "/-- ParseSize: what happens to a successfully parsed integer -/\ndef parseSizeClamp (size : Int) : Int :=\n  %s\n", c)
-	sizeErr, err := firstBranchValue(c)
-	if err != nil {
-		return nil, err
-	}
-	fmt.Fprintf(&b, "def parseSizeOnError : Int := %s\n\n", sizeErr)
-
-	// paginationResult
-	fd, err = pg.Fn("", "paginationResult")
-	if err != nil {
-		return nil, err
-	}
-	if len(fd.Body.List) != 3 {
-		return nil, fmt.Errorf("%s: paginationResult no longer is `start := ..; end := ..; return start, end, size`", pageGo)
-	}
-	var lets []string
-	for i, want := range []string{"start", "end"} {
-		as, ok := fd.Body.List[i].(*ast.AssignStmt)
-		if !ok || as.Tok != token.DEFINE || len(as.Lhs) != 1 || pg.Src(as.Lhs[0]) != want {
-			return nil, fmt.Errorf("%s: paginationResult statement %d is not `%s := ...`", pageGo, i, want)
-		}
-		e, err := intExpr(pg, as.Rhs[0])
-		if err != nil {
-			return nil, err
-		}
-		lets = append(lets, fmt.Sprintf("  let %s : Int := %s", leanIdent(want), e))
-	}
-	if norm(pg.Src(fd.Body.List[2])) != "return start, end, size" {
-		return nil, fmt.Errorf("%s: paginationResult no longer returns start, end, size", pageGo)
-	}
-	var pnames []string
-	for _, f := range fd.Type.Params.List {
-		for _, n := range f.Names {
-			pnames = append(pnames, n.Name)
-		}
-	}
-	if strings.Join(pnames, ",") != "page,size,len" {
-		return nil, fmt.Errorf("%s: paginationResult parameters changed: %v", pageGo, pnames)
-	}
-	b.WriteString("/-- paginationResult(page, size, len) = (start, end, size) -/\n")
-	b.WriteString("def paginationResult (page size len : Int) : Int × Int × Int :=\n" + strings.Join(lets, "\n") + "\n  (start, end_, size)\n\n")
-
-	// pagin
-	fd, err = pg.Fn("", "pagin")
-	if err != nil {
-		return nil, err
-	}
-	pnames = nil
-	for _, f := range fd.Type.Params.List {
-		for _, n := range f.Names {
-			pnames = append(pnames, n.Name)
-		}
-	}
-	if strings.Join(pnames, ",") != "start,end,size,len" {
-		return nil, fmt.Errorf("%s: pagin parameters changed: %v", pageGo, pnames)
-	}
-	fields := map[string]string{}
-	ast.Inspect(fd.Body, func(n ast.Node) bool {
-		if cl, ok := n.(*ast.CompositeLit); ok && pg.Src(cl.Type) == "Page" {
-			for _, el := range cl.Elts {
-				kv := el.(*ast.KeyValueExpr)
-				e, err2 := intExpr(pg, kv.Value)
-				if err2 != nil {
-					err = err2
-				}
-				fields[pg.Src(kv.Key)] = e
-			}
-			return false
-		}
-		return true
-	})
-	if err != nil {
-		return nil, err
-	}
-	for _, f := range []struct{ goName, lean, typ string }{
-		{"TotalPages", "paginTotalPages", "Int"}, {"Number", "paginNumber", "Int"},
-		{"NumberOfElements", "paginNumberOfElements", "Int"}, {"TotalElements", "paginTotalElements", "Int"},
-		{"Size", "paginSize", "Int"}, {"Last", "paginLast", "Bool"}, {"First", "paginFirst", "Bool"}} {
-		e, ok := fields[f.goName]
-		if !ok {
-			return nil, fmt.Errorf("%s: pagin no longer sets Page.%s", pageGo, f.goName)
-		}
-		if f.typ == "Bool" {
-			e = "decide " + e
-		}
-		fmt.Fprintf(&b, "/-- pagin: Page.%s -/\ndef %s (start end_ size len : Int) : %s := %s\n", f.goName, f.lean, f.typ, e)
-	}
-	// Pagination wires paginationResult into pagin
-	fd, err = pg.Fn("", "Pagination")
-	if err != nil {
-		return nil, err
-	}
-	if norm(pg.Src(fd.Body)) != norm(`{ start, end, size := paginationResult(page, size, len)
-		pagination := pagin(start, end, size, len)
-		return start, end, &pagination }`) {
-		return nil, fmt.Errorf("%s: Pagination no longer is paginationResult followed by pagin", pageGo)
-	}
-	fd, err = pg.Fn("", "PagingParams")
-	if err != nil {
-		return nil, err
-	}
-	if !strings.Contains(norm(pg.Src(fd.Body)), `ParsePage(req.QueryParameter("page")), ParseSize(req.QueryParameter("size"))`) {
-		return nil, fmt.Errorf("%s: PagingParams no longer passes page/size through ParsePage/ParseSize", pageGo)
-	}
-	// ListIPs uses PagingParams + Pagination + fips[start:end]
-	fd, err = ap.Fn("Controller", "ListIPs")
-	if err != nil {
-		return nil, err
-	}
-	src = norm(ap.Src(fd.Body))
-	for _, need := range []string{"sortParam, page, size := pageutil.PagingParams(req)",
-		"start, end, pagin := pageutil.Pagination(page, size, len(fips))", "pagedFips := fips[start:end]"} {
-		if !strings.Contains(src, need) {
-			shapeErrs = append(shapeErrs, fmt.Sprintf("%s: ListIPs no longer contains `%s`", apiGo, need))
-		}
-	}
-	b.WriteString("\n/-- handler shapes this translator no longer recognises (must be empty) -/\n")
-	b.WriteString("def shapeErrors : List String := " + strList(shapeErrs) + "\n")
-	b.WriteString("\nend Galaxy.Generated.Keys\n")
-	return map[string]string{"Keys.lean": b.String()}, nil
-}
-
 func pairList(l [][2]string) string {
 	var parts []string
 	for _, kv := range l {
@@ -804,301 +155,925 @@ func pairList(l [][2]string) string {
 	return "[" + strings.Join(parts, ",\n  ") + "]"
 }
 
-var firstBranchRe = regexp.MustCompile(`^if .*? then (\S+) else `)
+func norm(s string) string { return strings.Join(strings.Fields(s), " ") }
 
-func firstBranchValue(clamp string) (string, error) {
-	m := firstBranchRe.FindStringSubmatch(clamp)
-	if m == nil {
-		return "", fmt.Errorf("%s: cannot find the error-branch value in %s", pageGo, clamp)
-	}
-	return m[1], nil
-}
+// Lean names of the string constants of utils.go
+var constLean = map[string]string{"poolPrefix": "poolPrefix", "DeploymentPrefixKey": "dpPrefix", "StatefulsetPrefixKey": "stsPrefix",
+	"NoRefAppName": "noRefAppName", "NoRefAppTypePrefix": "noRefAppTypePrefix"}
 
-// resolveStr evaluates an expression that must be a string literal or one of the known constants.
-func resolveStr(p *fg.Parsed, e ast.Expr, consts map[string]string) (string, error) {
-	switch x := e.(type) {
-	case *ast.BasicLit:
-		if x.Kind == token.STRING {
-			return strconv.Unquote(x.Value)
-		}
-	case *ast.Ident:
-		if v, ok := consts[x.Name]; ok {
-			return v, nil
-		}
-	}
-	return "", fmt.Errorf("not a string literal or known constant: %s", p.Src(e))
-}
+// Lean parameter names of the KeyObj fields
+var fieldLean = map[string]string{"@recv.PoolName": "poolName", "@recv.AppTypePrefix": "tp", "@recv.Namespace": "ns", "@recv.AppName": "app",
+	"@recv.PodName": "pod"}
 
-// appTypePrefixTables reads GetAppTypePrefix:
-//
-//	[if kind == C { return R }]*          exact comparisons, before lower-casing
-//	lower := strings.ToLower(kind)
-//	if lower == A || lower == B { return R } else if ... { return R }
-//	return lower + "suffix"
-func appTypePrefixTables(p *fg.Parsed, fd *ast.FuncDecl, consts map[string]string) (exact, lower [][2]string, suffix string, err error) {
-	bad := func(why string) ([][2]string, [][2]string, string, error) {
-		return nil, nil, "", fmt.Errorf("%s: GetAppTypePrefix no longer has the known shape (%s): %s", utilsGo, why, norm(p.Src(fd.Body)))
-	}
-	seenLower := false
-	var collect func(v string, e ast.Expr, ret string, out *[][2]string) error
-	collect = func(v string, e ast.Expr, ret string, out *[][2]string) error {
-		be, ok := e.(*ast.BinaryExpr)
-		if !ok {
-			return fmt.Errorf("condition %s", p.Src(e))
-		}
-		if be.Op == token.LOR {
-			if err := collect(v, be.X, ret, out); err != nil {
-				return err
+// strLean renders a string-valued normal-form expression over KeyObj fields and constants as a Lean List-Char term;
+// params collects the Lean parameters used, in first-use order.
+func strLean(e *Ex, params *[]string) (string, error) {
+	add := func(p string) {
+		for _, q := range *params {
+			if q == p {
+				return
 			}
-			return collect(v, be.Y, ret, out)
 		}
-		if be.Op != token.EQL || p.Src(be.X) != v {
-			return fmt.Errorf("condition %s", p.Src(e))
-		}
-		s, err := resolveStr(p, be.Y, consts)
-		if err != nil {
-			return err
-		}
-		*out = append(*out, [2]string{s, ret})
-		return nil
+		*params = append(*params, p)
 	}
-	retOf := func(blk *ast.BlockStmt) (string, error) {
-		// comments do not count as statements
-		if len(blk.List) != 1 {
-			return "", fmt.Errorf("branch body is not a single return")
-		}
-		rs, ok := blk.List[0].(*ast.ReturnStmt)
-		if !ok || len(rs.Results) != 1 {
-			return "", fmt.Errorf("branch body is not a single return")
-		}
-		return resolveStr(p, rs.Results[0], consts)
-	}
-	n := len(fd.Body.List)
-	for i, st := range fd.Body.List {
-		switch s := st.(type) {
-		case *ast.IfStmt:
-			v := "kind"
-			out := &exact
-			if seenLower {
-				v = "lower"
-				out = &lower
+	var one func(e *Ex) (string, error)
+	one = func(e *Ex) (string, error) {
+		switch e.Op {
+		case "lit":
+			return chars(e.S), nil
+		case "id":
+			if l, ok := constLean[e.S]; ok {
+				return l, nil
 			}
-			for chain := s; chain != nil; {
-				r, err := retOf(chain.Body)
+		case "sel":
+			if l, ok := fieldLean[e.String()]; ok {
+				add(l)
+				return l, nil
+			}
+		case "concat":
+			var parts []string
+			for _, a := range e.A {
+				s, err := one(a)
 				if err != nil {
-					return bad(err.Error())
+					return "", err
 				}
-				if err := collect(v, chain.Cond, r, out); err != nil {
-					return bad(err.Error())
-				}
-				switch el := chain.Else.(type) {
-				case nil:
-					chain = nil
-				case *ast.IfStmt:
-					chain = el
-				default:
-					return bad("else block")
-				}
+				parts = append(parts, s)
 			}
-		case *ast.AssignStmt:
-			if norm(p.Src(s)) != "lower := strings.ToLower(kind)" || seenLower {
-				return bad("assignment " + norm(p.Src(s)))
-			}
-			seenLower = true
-		case *ast.ReturnStmt:
-			if i != n-1 || !seenLower || len(s.Results) != 1 {
-				return bad("return position")
-			}
-			be, ok := s.Results[0].(*ast.BinaryExpr)
-			if !ok || be.Op != token.ADD || p.Src(be.X) != "lower" {
-				return bad("default return")
-			}
-			suffix, err = resolveStr(p, be.Y, consts)
-			if err != nil {
-				return bad(err.Error())
-			}
-		default:
-			return bad("statement " + norm(p.Src(st)))
+			return strings.Join(parts, " ++ "), nil
 		}
+		return "", fmt.Errorf("unsupported string expression %s", e)
 	}
-	if suffix == "" || !seenLower {
-		return bad("no default")
-	}
-	return exact, lower, suffix, nil
+	return one(e)
 }
 
-// appTypeTable reads GetAppType: switch appTypePrefix { case C: return "x" ... default: if len(p) > 0 { return p[:len(p)-1] } else { return "" } }
-func appTypeTable(p *fg.Parsed, fd *ast.FuncDecl, consts map[string]string) ([][2]string, int, error) {
-	bad := func(why string) ([][2]string, int, error) {
-		return nil, 0, fmt.Errorf("%s: GetAppType no longer has the known shape (%s): %s", utilsGo, why, norm(p.Src(fd.Body)))
+func defStr(name string, params []string, body string) string {
+	ps := ""
+	if len(params) > 0 {
+		ps = " (" + strings.Join(params, " ") + " : List Char)"
 	}
-	if len(fd.Body.List) != 1 {
-		return bad("statement count")
+	return fmt.Sprintf("def %s%s : List Char :=\n  %s\n", name, ps, body)
+}
+
+// intLean renders an integer / boolean normal-form expression; vars maps parameter ids (@0, …) and special
+// expressions (by canonical string) to Lean names.
+func intLean(e *Ex, vars map[string]string) (string, error) {
+	if v, ok := vars[e.String()]; ok {
+		return v, nil
 	}
-	sw, ok := fd.Body.List[0].(*ast.SwitchStmt)
-	if !ok || p.Src(sw.Tag) != "appTypePrefix" {
-		return bad("switch")
-	}
-	var tbl [][2]string
-	drop := -1
-	for _, c := range sw.Body.List {
-		cc := c.(*ast.CaseClause)
-		if cc.List == nil {
-			want := regexp.MustCompile(`^if len\(appTypePrefix\) > 0 \{ return appTypePrefix\[:len\(appTypePrefix\)-(\d+)\] \} else \{ return "" \}$`)
-			if len(cc.Body) != 1 {
-				return bad("default body")
-			}
-			m := want.FindStringSubmatch(norm(p.Src(cc.Body[0])))
-			if m == nil {
-				return bad("default body")
-			}
-			drop, _ = strconv.Atoi(m[1])
-			continue
-		}
-		if len(cc.Body) != 1 {
-			return bad("case body")
-		}
-		rs, ok := cc.Body[0].(*ast.ReturnStmt)
-		if !ok || len(rs.Results) != 1 {
-			return bad("case body")
-		}
-		r, err := resolveStr(p, rs.Results[0], consts)
+	bin := func(op string) (string, error) {
+		a, err := intLean(e.A[0], vars)
 		if err != nil {
-			return bad(err.Error())
+			return "", err
 		}
-		for _, e := range cc.List {
-			k, err := resolveStr(p, e, consts)
-			if err != nil {
-				return bad(err.Error())
-			}
-			tbl = append(tbl, [2]string{k, r})
+		b, err := intLean(e.A[1], vars)
+		if err != nil {
+			return "", err
+		}
+		if op == "tdiv" {
+			return fmt.Sprintf("(Int.tdiv %s %s)", a, b), nil // Go integer division truncates toward zero
+		}
+		if op == "min" || op == "max" {
+			return fmt.Sprintf("(%s %s %s)", op, a, b), nil
+		}
+		return fmt.Sprintf("(%s %s %s)", a, op, b), nil
+	}
+	switch e.Op {
+	case "int":
+		if strings.HasPrefix(e.S, "-") {
+			return "(" + e.S + ")", nil
+		}
+		return e.S, nil
+	case "id":
+		if e.S == "DefaultSize" {
+			return "defaultSize", nil
+		}
+	case "min", "max":
+		return bin(e.Op)
+	case "lt":
+		return bin("<")
+	case "eq":
+		return bin("=")
+	case "bin":
+		switch e.S {
+		case "+", "-", "*":
+			return bin(e.S)
+		case "/":
+			return bin("tdiv")
+		}
+	case "cmp":
+		switch e.S {
+		case "==":
+			return bin("=")
+		case "!=":
+			return bin("≠")
+		case "<":
+			return bin("<")
+		case ">":
+			return bin(">")
+		case "<=":
+			return bin("≤")
+		case ">=":
+			return bin("≥")
 		}
 	}
-	if drop < 0 {
-		return bad("no default")
-	}
-	return tbl, drop, nil
+	return "", fmt.Errorf("unsupported integer expression %s", e)
 }
 
-// appTypeDefault inspects the handler `fn` of api.go for
-//
-//	var appTypePrefix string
-//	if X == "" { appTypePrefix = util.StatefulsetPrefixKey } [else { appTypePrefix = util.GetAppTypePrefix(X) }]
-//	[appTypePrefix = util.GetAppTypePrefix(X)]
-//	... util.NewKeyObj(appTypePrefix, a, b, c, d)
-//
-// and reports whether the statefulset default survives, plus the NewKeyObj arguments.
-func appTypeDefault(p *fg.Parsed, fn, x, strip string) (bool, []string, error) {
-	fd, err := p.Fn("Controller", fn)
+// intTreeLean renders a decision tree with single-value return leaves as nested if-then-else.
+func intTreeLean(n *Node, vars map[string]string) (string, error) {
+	if n.Cond == nil {
+		if len(n.Ret) != 1 || len(n.Events) != 0 || len(n.Stores) != 0 {
+			return "", fmt.Errorf("leaf %s is not a single value", n)
+		}
+		return intLean(n.Ret[0], vars)
+	}
+	c, err := intLean(n.Cond, vars)
 	if err != nil {
-		return false, nil, err
+		return "", err
 	}
-	var block *ast.BlockStmt
-	var idx = -1
-	var theIf *ast.IfStmt
-	ast.Inspect(fd.Body, func(n ast.Node) bool {
-		blk, ok := n.(*ast.BlockStmt)
-		if !ok {
-			return true
-		}
-		for i, st := range blk.List {
-			if ifs, ok := st.(*ast.IfStmt); ok && norm(p.Src(ifs.Cond)) == x+` == ""` && theIf == nil {
-				block, idx, theIf = blk, i, ifs
-			}
-		}
-		return true
-	})
-	if theIf == nil {
-		return false, nil, fmt.Errorf("%s: %s no longer tests `%s == \"\"`", apiGo, fn, x)
+	t, err := intTreeLean(n.Then, vars)
+	if err != nil {
+		return "", err
 	}
-	if norm(p.Src(theIf.Body)) != "{ appTypePrefix = util.StatefulsetPrefixKey }" {
-		return false, nil, fmt.Errorf("%s: %s: the empty-appType branch no longer assigns util.StatefulsetPrefixKey: %s", apiGo, fn, norm(p.Src(theIf.Body)))
+	e, err := intTreeLean(n.Else, vars)
+	if err != nil {
+		return "", err
 	}
-	call := "appTypePrefix = util.GetAppTypePrefix(" + x + ")"
-	inElse := false
-	if theIf.Else != nil {
-		if norm(p.Src(theIf.Else)) != "{ "+call+" }" {
-			return false, nil, fmt.Errorf("%s: %s: unknown else branch of the appType default: %s", apiGo, fn, norm(p.Src(theIf.Else)))
-		}
-		inElse = true
-	}
-	overwritten := false
-	var args []string
-	for _, st := range block.List[idx+1:] {
-		s := norm(p.Src(st))
-		if as, ok := st.(*ast.AssignStmt); ok && len(as.Lhs) == 1 && p.Src(as.Lhs[0]) == "appTypePrefix" {
-			if s != call {
-				return false, nil, fmt.Errorf("%s: %s: unknown assignment to appTypePrefix: %s", apiGo, fn, s)
-			}
-			overwritten = true
-		}
-		ast.Inspect(st, func(n ast.Node) bool {
-			if c, ok := n.(*ast.CallExpr); ok && p.Src(c.Fun) == "util.NewKeyObj" && args == nil {
-				for _, a := range c.Args {
-					args = append(args, strings.TrimPrefix(p.Src(a), strip))
-				}
-			}
-			return true
-		})
-	}
-	if !inElse && !overwritten {
-		return false, nil, fmt.Errorf("%s: %s never calls util.GetAppTypePrefix(%s)", apiGo, fn, x)
-	}
-	if args == nil {
-		return false, nil, fmt.Errorf("%s: %s no longer builds the key with util.NewKeyObj", apiGo, fn)
-	}
-	return inElse && !overwritten, args, nil
+	return fmt.Sprintf("if %s then %s else %s", c, t, e), nil
 }
 
-// releaseLoopsShape checks the two loops of ReleaseIPs the model's `releaseRequest` transcribes: every entry of the
-// request is copied (`temp := releaseIPReq.IPs[i]`), a fresh KeyObj / ReleaseRequest is APPENDED per releasable entry,
-// and the second loop calls c.releaseFunc for every collected request.
-func releaseLoopsShape(p *fg.Parsed) error {
-	fd, err := p.Fn("Controller", "ReleaseIPs")
+// ---------- items
+
+type item struct {
+	name string
+	f    func(s *sources) (string, error)
+}
+
+func (s *sources) constVal(e *Ex) (string, bool) {
+	switch e.Op {
+	case "lit":
+		return e.S, true
+	case "id":
+		v, ok := s.consts[e.S]
+		return v, ok
+	}
+	return "", false
+}
+
+func itemConsts(s *sources) (string, error) {
+	var b strings.Builder
+	s.consts = map[string]string{}
+	for _, c := range []string{"poolPrefix", "DeploymentPrefixKey", "StatefulsetPrefixKey", "NoRefAppName", "NoRefAppTypePrefix"} {
+		v, err := s.u.ConstString(c)
+		if err != nil {
+			return "", err
+		}
+		s.consts[c] = v
+		fmt.Fprintf(&b, "/-- `%s = %s` -/\ndef %s : List Char := %s\n", c, strconv.Quote(v), constLean[c], chars(v))
+	}
+	return b.String() + "\n", nil
+}
+
+const (
+	cPool = `(eq @recv.PoolName "")`
+	cApp  = `(eq @recv.AppName "")`
+	cNs   = `(eq @recv.Namespace "")`
+)
+
+func keyStore(l *Node) (*Ex, bool) {
+	if len(l.Stores) != 1 || len(l.Ret) != 0 || len(l.Events) != 0 {
+		return nil, false
+	}
+	e, ok := l.StoreEx["@recv.KeyInDB"]
+	return e, ok
+}
+
+// genKey: the key as a function of which of pool / app / namespace are empty.  Read off by evaluating the normal form
+// on all 8 combinations: pool≠"" ∧ app="" ⇒ P(pool); pool="" ∧ app="" ∧ ns="" ⇒ ""; otherwise [P(pool) ++] F(type, ns, app, pod).
+func itemGenKey(s *sources) (string, error) {
+	t, err := tree(s.u, "KeyObj", "genKey")
+	if err != nil {
+		return "", err
+	}
+	vals := map[[3]bool]*Ex{}
+	for _, pe := range []bool{true, false} {
+		for _, ae := range []bool{true, false} {
+			for _, ne := range []bool{true, false} {
+				leaf, ok := t.Eval(map[string]bool{cPool: pe, cApp: ae, cNs: ne})
+				if !ok {
+					return "", fmt.Errorf("%s: genKey tests something else than the emptiness of PoolName / AppName / Namespace:\n%s", utilsGo, t.Pretty("  "))
+				}
+				e, ok := keyStore(leaf)
+				if !ok {
+					return "", fmt.Errorf("%s: genKey does more than assigning KeyInDB on some path: %s", utilsGo, leaf)
+				}
+				vals[[3]bool{pe, ae, ne}] = e
+			}
+		}
+	}
+	P := vals[[3]bool{false, true, true}]
+	F := vals[[3]bool{true, false, false}]
+	nc := NewNormaliser(s.u)
+	for k, v := range vals {
+		var want *Ex
+		switch {
+		case !k[0] && k[1]:
+			want = P
+		case k[0] && k[1] && k[2]:
+			want = lit("")
+		case k[0]:
+			want = F
+		default:
+			want = nc.concat(P, F)
+		}
+		if !v.eq(want) {
+			return "", fmt.Errorf("%s: genKey: for pool empty=%v app empty=%v namespace empty=%v the key is %s, expected %s", utilsGo, k[0], k[1], k[2], v, want)
+		}
+	}
+	var pp, fp []string
+	pl, err := strLean(P, &pp)
+	if err != nil {
+		return "", err
+	}
+	fl, err := strLean(F, &fp)
+	if err != nil {
+		return "", err
+	}
+	if strings.Join(pp, ",") != "poolName" || strings.Join(fp, ",") != "tp,ns,app,pod" {
+		return "", fmt.Errorf("%s: genKey uses other fields than expected: pool prefix over %v, key over %v", utilsGo, pp, fp)
+	}
+	return "/-- genKey: the prefix when `PoolName != \"\"`; it is the whole key when `AppName == \"\"` -/\n" + defStr("genKeyPoolPrefix", pp, pl) +
+		"/-- genKey: the full key; `\"\"` instead when pool, app and namespace are all empty -/\n" +
+		defStr("genKeyFull", append([]string{"pfx"}, fp...), "pfx ++ "+fl), nil
+}
+
+func retStr(t *Node, truth map[string]bool) (*Ex, error) {
+	leaf, ok := t.Eval(truth)
+	if !ok || len(leaf.Ret) != 1 || len(leaf.Events) != 0 || len(leaf.Stores) != 0 {
+		return nil, fmt.Errorf("not a single returned value under %v:\n%s", truth, t.Pretty("  "))
+	}
+	return leaf.Ret[0], nil
+}
+
+func itemPoolPrefixes(s *sources) (string, error) {
+	t, err := tree(s.u, "KeyObj", "PoolPrefix")
+	if err != nil {
+		return "", err
+	}
+	pool, err := retStr(t, map[string]bool{cPool: false})
+	if err != nil {
+		return "", fmt.Errorf("%s: PoolPrefix: %v", utilsGo, err)
+	}
+	app, err := retStr(t, map[string]bool{cPool: true})
+	if err != nil {
+		return "", fmt.Errorf("%s: PoolPrefix: %v", utilsGo, err)
+	}
+	t2, err := tree(s.u, "KeyObj", "PoolAppPrefix")
+	if err != nil {
+		return "", err
+	}
+	pa, err := retStr(t2, map[string]bool{cPool: false})
+	if err != nil {
+		return "", fmt.Errorf("%s: PoolAppPrefix: %v", utilsGo, err)
+	}
+	pa0, err := retStr(t2, map[string]bool{cPool: true})
+	if err != nil {
+		return "", fmt.Errorf("%s: PoolAppPrefix: %v", utilsGo, err)
+	}
+	if !pa0.eq(app) {
+		return "", fmt.Errorf("%s: PoolAppPrefix without a pool is %s, not PoolPrefix() = %s", utilsGo, pa0, app)
+	}
+	var p1, p2, p3 []string
+	l1, err := strLean(pool, &p1)
+	if err != nil {
+		return "", err
+	}
+	l2, err := strLean(app, &p2)
+	if err != nil {
+		return "", err
+	}
+	l3, err := strLean(pa, &p3)
+	if err != nil {
+		return "", err
+	}
+	if strings.Join(p1, ",") != "poolName" || strings.Join(p2, ",") != "tp,ns,app" || strings.Join(p3, ",") != "poolName,tp,ns,app" {
+		return "", fmt.Errorf("%s: PoolPrefix / PoolAppPrefix use other fields than expected: %v %v %v", utilsGo, p1, p2, p3)
+	}
+	return "/-- PoolPrefix(), `PoolName != \"\"` branch -/\n" + defStr("poolPrefixPool", p1, l1) +
+		"/-- PoolPrefix(), no pool -/\n" + defStr("poolPrefixApp", p2, l2) +
+		"/-- PoolAppPrefix(), `PoolName != \"\"` branch (else PoolPrefix()) -/\n" + defStr("poolAppPrefixPool", p3, l3) + "\n", nil
+}
+
+func itemResolvePodKey(s *sources) (string, error) {
+	t, err := tree(s.u, "", "resolvePodKey")
+	if err != nil {
+		return "", err
+	}
+	bad := func() (string, error) {
+		return "", fmt.Errorf("%s: resolvePodKey is no longer `parts := Split(key, sep); if len(parts) == n { return parts[i]+suffix, parts[j], parts[k], parts[l] }; return \"\",\"\",\"\",\"\"`:\n%s",
+			utilsGo, t.Pretty("  "))
+	}
+	if t.Cond == nil || t.Cond.Op != "eq" || t.Then.Cond != nil || t.Else.Cond != nil || len(t.Then.Ret) != 4 || len(t.Else.Ret) != 4 {
+		return bad()
+	}
+	ln, cnt := t.Cond.A[0], t.Cond.A[1]
+	if ln.Op != "len" || cnt.Op != "int" || ln.A[0].Op != "call" || len(ln.A[0].A) != 3 || ln.A[0].A[0].String() != "strings.Split" ||
+		ln.A[0].A[1].String() != "@0$" || ln.A[0].A[2].Op != "lit" {
+		return bad()
+	}
+	split := ln.A[0]
+	sep := split.A[2].S
+	for _, r := range t.Else.Ret {
+		if !r.eq(lit("")) {
+			return bad()
+		}
+	}
+	idx := func(e *Ex) (string, bool) {
+		if e.Op == "index" && e.A[0].eq(split) && e.A[1].Op == "int" {
+			return e.A[1].S, true
+		}
+		return "", false
+	}
+	r := t.Then.Ret
+	if r[0].Op != "concat" || len(r[0].A) != 2 || r[0].A[1].Op != "lit" {
+		return bad()
+	}
+	i0, ok0 := idx(r[0].A[0])
+	i1, ok1 := idx(r[1])
+	i2, ok2 := idx(r[2])
+	i3, ok3 := idx(r[3])
+	if !ok0 || !ok1 || !ok2 || !ok3 || len([]rune(sep)) != 1 {
+		return bad()
+	}
+	var b strings.Builder
+	fmt.Fprintf(&b, "/-- resolvePodKey: `strings.Split(key, %q)` -/\ndef sep : Char := %s\n", sep, strings.Trim(chars(sep), "[]"))
+	fmt.Fprintf(&b, "/-- resolvePodKey: `len(parts) == %s` -/\ndef partCount : Nat := %s\n", cnt.S, cnt.S)
+	fmt.Fprintf(&b, "/-- resolvePodKey returns (parts[%s]+suffix, parts[%s], parts[%s], parts[%s]): indices of\n    (appTypePrefix, appName, podName, namespace) -/\n", i0, i1, i2, i3)
+	fmt.Fprintf(&b, "def resolveIdx : Nat × Nat × Nat × Nat := (%s, %s, %s, %s)\n", i0, i1, i2, i3)
+	fmt.Fprintf(&b, "def resolveTypeSuffix : List Char := %s\n\n", chars(r[0].A[1].S))
+	return b.String(), nil
+}
+
+// sameAsRef: the normal form of a function equals the normal form of the pinned reference source.
+func sameAsRef(cur, ref *fg.Parsed, recv, name, what string) error {
+	t, err := tree(cur, recv, name)
 	if err != nil {
 		return err
 	}
-	src := norm(p.Src(fd.Body))
-	for _, need := range []string{
-		"for i := range releaseIPReq.IPs { temp := releaseIPReq.IPs[i]",
-		"keyObj := util.NewKeyObj(appTypePrefix, temp.Namespace, temp.AppName, temp.PodName, temp.PoolName) unbindRequests = append(unbindRequests, &schedulerplugin.ReleaseRequest{IP: ip, KeyObj: keyObj})",
-		"for _, req := range unbindRequests { if err := c.releaseFunc(req); err != nil { unreleasedIP = append(unreleasedIP, req.IP.String())",
-		"releasable, status := c.checkReleasableAndStatus(&temp) if !releasable { unreleasedIP = append(unreleasedIP, temp.IP)",
-		"res.Unreleased = unreleasedIP",
-	} {
-		if !strings.Contains(src, need) {
-			return fmt.Errorf("%s: ReleaseIPs no longer contains `%s`", apiGo, need)
-		}
+	r, err := tree(ref, recv, name)
+	if err != nil {
+		return fmt.Errorf("reference source: %v", err)
+	}
+	if t.String() != r.String() {
+		return fmt.Errorf("%s: %s no longer has the normal form of the pinned source (%s); first difference:\n%s", cur.Path, name, what, firstDiff(r, t))
 	}
 	return nil
 }
 
-// prefixArgs lists the printed arguments of every util.GetAppTypePrefix(...) call in handler fn, and, for every other
-// call whose result is assigned to appTypePrefix, "<callee>(<args>)" — so a helper or a normalising wrapper shows up.
-func prefixArgs(p *fg.Parsed, fn string) []string {
-	fd, err := p.Fn("Controller", fn)
-	if err != nil {
-		return nil
+func firstDiff(ref, cur *Node) string {
+	a, b := strings.Split(ref.Pretty(""), "\n"), strings.Split(cur.Pretty(""), "\n")
+	for i := 0; i < len(a) && i < len(b); i++ {
+		if a[i] != b[i] {
+			return fmt.Sprintf("  pinned:  %s\n  current: %s", clip(a[i]), clip(b[i]))
+		}
 	}
-	var out []string
-	ast.Inspect(fd.Body, func(n ast.Node) bool {
-		switch x := n.(type) {
-		case *ast.CallExpr:
-			if p.Src(x.Fun) == "util.GetAppTypePrefix" {
-				var a []string
-				for _, e := range x.Args {
-					a = append(a, norm(p.Src(e)))
-				}
-				out = append(out, strings.Join(a, ", "))
+	return fmt.Sprintf("  pinned has %d lines, current %d", len(a), len(b))
+}
+
+func clip(s string) string {
+	s = strings.TrimSpace(s)
+	if len(s) > 400 {
+		return s[:400] + "…"
+	}
+	return s
+}
+
+func itemAppTypePrefix(s *sources) (string, error) {
+	t, err := tree(s.u, "", "GetAppTypePrefix")
+	if err != nil {
+		return "", err
+	}
+	bad := func(why string) (string, error) {
+		return "", fmt.Errorf("%s: GetAppTypePrefix is no longer a chain of `kind == c` tests, then `ToLower(kind) == c` tests, then `ToLower(kind) + suffix` (%s):\n%s",
+			utilsGo, why, t.Pretty("  "))
+	}
+	const lower = `(call strings.ToLower @0$)`
+	var exact, low [][2]string
+	n := t
+	for n.Cond != nil {
+		if n.Cond.Op != "eq" || n.Then.Cond != nil || len(n.Then.Ret) != 1 || len(n.Then.Events) != 0 {
+			return bad("test " + n.Cond.String())
+		}
+		// the tested value may be on either side after canonical ordering
+		x, c := n.Cond.A[0], n.Cond.A[1]
+		if _, ok := s.constVal(c); !ok {
+			x, c = c, x
+		}
+		cv, ok1 := s.constVal(c)
+		rv, ok2 := s.constVal(n.Then.Ret[0])
+		if !ok1 || !ok2 {
+			return bad("test " + n.Cond.String())
+		}
+		switch x.String() {
+		case "@0$":
+			if len(low) > 0 {
+				return bad("exact test after lower-case tests")
 			}
-		case *ast.AssignStmt:
-			if len(x.Lhs) >= 1 && p.Src(x.Lhs[0]) == "appTypePrefix" && len(x.Rhs) == 1 {
-				if c, ok := x.Rhs[0].(*ast.CallExpr); ok && p.Src(c.Fun) != "util.GetAppTypePrefix" {
-					out = append(out, norm(p.Src(c)))
+			exact = append(exact, [2]string{cv, rv})
+		case lower:
+			low = append(low, [2]string{cv, rv})
+		default:
+			return bad("tested value " + x.String())
+		}
+		n = n.Else
+	}
+	if len(n.Ret) != 1 || n.Ret[0].Op != "concat" || len(n.Ret[0].A) != 2 || n.Ret[0].A[0].String() != lower || n.Ret[0].A[1].Op != "lit" {
+		return bad("default " + n.String())
+	}
+	for _, tb := range [][][2]string{exact, low} {
+		seen := map[string]bool{}
+		for _, kv := range tb {
+			if seen[kv[0]] {
+				return bad("duplicate key " + kv[0])
+			}
+			seen[kv[0]] = true
+		}
+	}
+	sort.Slice(exact, func(i, j int) bool { return exact[i][0] < exact[j][0] })
+	sort.Slice(low, func(i, j int) bool { return low[i][0] < low[j][0] })
+	var b strings.Builder
+	b.WriteString("/-- GetAppTypePrefix: comparisons on the kind as given (before lower-casing), sorted by key -/\n")
+	b.WriteString("def appTypePrefixExact : List (List Char × List Char) := " + pairList(exact) + "\n")
+	b.WriteString("/-- GetAppTypePrefix: comparisons on `strings.ToLower(kind)`, sorted by key -/\n")
+	b.WriteString("def appTypePrefixLower : List (List Char × List Char) := " + pairList(low) + "\n")
+	b.WriteString("/-- GetAppTypePrefix: default `lower + suffix` -/\n")
+	b.WriteString("def appTypePrefixSuffix : List Char := " + chars(n.Ret[0].A[1].S) + "\n")
+	return b.String(), nil
+}
+
+func itemAppType(s *sources) (string, error) {
+	t, err := tree(s.u, "", "GetAppType")
+	if err != nil {
+		return "", err
+	}
+	bad := func(why string) (string, error) {
+		return "", fmt.Errorf("%s: GetAppType is no longer a chain of `prefix == c` tests, then `\"\"` for the empty prefix, else `prefix[:len(prefix)-d]` (%s):\n%s",
+			utilsGo, why, t.Pretty("  "))
+	}
+	var tbl [][2]string
+	n := t
+	for n.Cond != nil && n.Cond.String() != `(eq @0$ "")` {
+		if n.Cond.Op != "eq" || n.Then.Cond != nil || len(n.Then.Ret) != 1 {
+			return bad("test " + n.Cond.String())
+		}
+		x, c := n.Cond.A[0], n.Cond.A[1]
+		if x.String() != "@0$" {
+			x, c = c, x
+		}
+		cv, ok1 := s.constVal(c)
+		rv, ok2 := s.constVal(n.Then.Ret[0])
+		if x.String() != "@0$" || !ok1 || !ok2 {
+			return bad("test " + n.Cond.String())
+		}
+		tbl = append(tbl, [2]string{cv, rv})
+		n = n.Else
+	}
+	if n.Cond == nil || n.Then.Cond != nil || n.Else.Cond != nil || len(n.Then.Ret) != 1 || !n.Then.Ret[0].eq(lit("")) || len(n.Else.Ret) != 1 {
+		return bad("default")
+	}
+	sl := n.Else.Ret[0]
+	if sl.Op != "slice" || sl.A[0].String() != "@0$" || sl.A[1].Op != "none" || sl.A[2].Op != "bin" || sl.A[2].S != "-" ||
+		sl.A[2].A[0].String() != "(len @0$)" || sl.A[2].A[1].Op != "int" {
+		return bad("default " + sl.String())
+	}
+	seen := map[string]bool{}
+	for _, kv := range tbl {
+		if seen[kv[0]] {
+			return bad("duplicate key")
+		}
+		seen[kv[0]] = true
+	}
+	sort.Slice(tbl, func(i, j int) bool { return tbl[i][0] < tbl[j][0] })
+	d := sl.A[2].A[1].S
+	return "/-- GetAppType: the prefixes with a fixed name, sorted by key -/\n" +
+		"def appTypeTable : List (List Char × List Char) := " + pairList(tbl) + "\n" +
+		fmt.Sprintf("/-- GetAppType default: `appTypePrefix[:len(appTypePrefix)-%s]` when non-empty, else \"\" -/\ndef appTypeDrop : Nat := %s\n\n", d, d), nil
+}
+
+func itemFormatKey(s *sources, ref *sources) (string, error) {
+	for _, fn := range []string{"FormatKey", "resolveDeploymentName", "ParseKey"} {
+		if err := sameAsRef(s.u, ref.u, "", fn, "the model's formatKey / resolveDeploymentName / parseKey transcribe it"); err != nil {
+			return "", err
+		}
+	}
+	return "/-- FormatKey / resolveDeploymentName (normal form equal to the pinned source): the owner kinds compared\n    literally and the replica-set name cut; ParseKey: HasPrefix poolPrefix, SplitN(rest, sep, 2) with both parts\n    required, resolvePodKey assigned to (AppTypePrefix, AppName, PodName, Namespace) -/\n" +
+		"def kindStatefulSet : List Char := " + chars("StatefulSet") + "\n" +
+		"def kindReplicaSet : List Char := " + chars("ReplicaSet") + "\n" +
+		"def rsCut : Char := '-'\n" +
+		"def parseKeyAssign : List String := " + strList([]string{"AppTypePrefix", "AppName", "PodName", "Namespace"}) + "\n\n", nil
+}
+
+// NewKeyObj: parameter i is stored in which field; genKey is called on the object.
+func itemNewKeyObj(s *sources) (string, error) {
+	t, err := tree(s.u, "", "NewKeyObj")
+	if err != nil {
+		return "", err
+	}
+	bad := func() (string, error) {
+		return "", fmt.Errorf("%s: NewKeyObj no longer stores its five parameters in fields of a fresh KeyObj and calls genKey on it:\n%s", utilsGo, t.Pretty("  "))
+	}
+	if t.Cond != nil || len(t.Ret) != 1 || len(t.Events) != 1 {
+		return bad()
+	}
+	obj := t.Ret[0]
+	if obj.Op != "addr" || obj.A[0].Op != "struct" || obj.A[0].S != "KeyObj" || len(obj.A[0].A) != 5 {
+		return bad()
+	}
+	if t.Events[0].String() != "(call "+obj.String()+".genKey)" {
+		return bad()
+	}
+	wiring := make([]string, 5)
+	for _, kv := range obj.A[0].A {
+		v := kv.A[0].String()
+		if len(v) != 3 || v[0] != '@' || v[2] != '$' || v[1] < '0' || v[1] > '4' || wiring[v[1]-'0'] != "" {
+			return bad()
+		}
+		wiring[v[1]-'0'] = kv.S
+	}
+	return "/-- NewKeyObj(p0 … p4): the KeyObj field each parameter is stored in (then genKey) -/\n" +
+		"def newKeyObjWiring : List String := " + strList(wiring) + "\n\n", nil
+}
+
+func itemConvert(s *sources) (string, error) {
+	t, err := tree(s.ap, "", "convert")
+	if err != nil {
+		return "", err
+	}
+	if t.Cond != nil || len(t.Ret) != 1 || t.Ret[0].Op != "struct" || len(t.Events) != 0 {
+		return "", fmt.Errorf("%s: convert is no longer one FloatingIP literal:\n%s", apiGo, t.Pretty("  "))
+	}
+	var b strings.Builder
+	b.WriteString("/-- convert: API entry field := normal-form expression over the record (`@0`) -/\n")
+	b.WriteString("def convertFields : List (String × String) := [")
+	first := true
+	for _, want := range []string{"IP", "Namespace", "AppName", "PodName", "PoolName", "AppType"} {
+		for _, kv := range t.Ret[0].A {
+			if kv.S == want {
+				if !first {
+					b.WriteString(", ")
+				}
+				first = false
+				fmt.Fprintf(&b, "(%s, %s)", fg.LeanStr(want), fg.LeanStr(kv.A[0].String()))
+			}
+		}
+	}
+	b.WriteString("]\n\n")
+	return b.String(), nil
+}
+
+// keyWiring inspects a handler's normal form: every `util.NewKeyObj(a0,…,a4)` it evaluates, on which path.
+//
+//	prefixArgs   the distinct arguments Y of util.GetAppTypePrefix(Y) inside a0 (plus any other a0 that is neither
+//	             that nor the statefulset constant — a helper or a normalising wrapper shows up here)
+//	defaultsSts  on every path: a0 = util.StatefulsetPrefixKey when Y == "" holds, a0 = util.GetAppTypePrefix(Y) otherwise
+//	keyArgs      a1 … a4
+func keyWiring(p *fg.Parsed, fn string) (defaultsSts bool, prefixArgs, keyArgs []string, err error) {
+	t, err := tree(p, "Controller", fn)
+	if err != nil {
+		return false, nil, nil, err
+	}
+	type occ struct {
+		facts map[string]bool
+		args  []*Ex
+	}
+	var occs []occ
+	t.AllLeaves(func(facts map[string]bool, leaf *Node) {
+		seen := map[string]bool{}
+		leaf.Exprs(func(e *Ex) {
+			if e.Op == "call" && e.A[0].String() == "util.NewKeyObj" && len(e.A) == 6 && !seen[e.String()] {
+				seen[e.String()] = true
+				occs = append(occs, occ{facts, e.A[1:]})
+			}
+		})
+	})
+	if len(occs) == 0 {
+		return false, nil, nil, fmt.Errorf("%s: %s no longer builds a key with util.NewKeyObj", apiGo, fn)
+	}
+	ys := map[string]*Ex{}
+	var other []string
+	for _, o := range occs {
+		a0 := o.args[0]
+		switch {
+		case a0.String() == "util.StatefulsetPrefixKey":
+		case a0.Op == "call" && len(a0.A) == 2 && a0.A[0].String() == "util.GetAppTypePrefix":
+			ys[a0.A[1].String()] = a0.A[1]
+		default:
+			other = append(other, a0.String())
+		}
+	}
+	for y := range ys {
+		prefixArgs = append(prefixArgs, y)
+	}
+	sort.Strings(prefixArgs)
+	sort.Strings(other)
+	for i, o := range other {
+		if i == 0 || other[i-1] != o {
+			prefixArgs = append(prefixArgs, o)
+		}
+	}
+	rest := ""
+	for _, o := range occs {
+		var as []string
+		for _, a := range o.args[1:] {
+			as = append(as, a.String())
+		}
+		if rest != "" && rest != strings.Join(as, "\x00") {
+			return false, prefixArgs, nil, fmt.Errorf("%s: %s builds keys from different fields on different paths", apiGo, fn)
+		}
+		rest = strings.Join(as, "\x00")
+		keyArgs = as
+	}
+	defaultsSts = len(ys) == 1 && len(other) == 0
+	if defaultsSts {
+		var y *Ex
+		for _, v := range ys {
+			y = v
+		}
+		empty := mkEq(y, lit("")).String()
+		sawEmpty, sawNonEmpty := false, false
+		for _, o := range occs {
+			isEmpty, known := o.facts[empty]
+			if !known {
+				defaultsSts = false
+				continue
+			}
+			a0 := o.args[0].String()
+			if isEmpty {
+				sawEmpty = true
+				defaultsSts = defaultsSts && a0 == "util.StatefulsetPrefixKey"
+			} else {
+				sawNonEmpty = true
+				defaultsSts = defaultsSts && a0 != "util.StatefulsetPrefixKey"
+			}
+		}
+		defaultsSts = defaultsSts && sawEmpty && sawNonEmpty
+	}
+	return defaultsSts, prefixArgs, keyArgs, nil
+}
+
+func itemHandlers(s *sources, ref *sources) (string, error) {
+	var b strings.Builder
+	rel, relY, relArgs, err := keyWiring(s.ap, "ReleaseIPs")
+	if err != nil {
+		return "", err
+	}
+	lst, lstY, lstArgs, err := keyWiring(s.ap, "ListIPs")
+	if err != nil {
+		return "", err
+	}
+	b.WriteString("/-- ReleaseIPs: on every path that builds a key the prefix is the statefulset constant when the entry's app type is\n    empty and `GetAppTypePrefix` of it otherwise -/\n")
+	b.WriteString("def releaseDefaultsToSts : Bool := " + fg.LeanBool(rel) + "\n")
+	b.WriteString("/-- ReleaseIPs: arguments 2–5 of `util.NewKeyObj(...)` (normal form; `elem#0` is the request entry) -/\n")
+	b.WriteString("def releaseKeyArgs : List String := " + strList(relArgs) + "\n")
+	b.WriteString("/-- ReleaseIPs / ListIPs: what util.GetAppTypePrefix is applied to (exactly the entry's / the query's app type);\n    any other way the prefix is obtained is listed too -/\n")
+	b.WriteString("def releasePrefixArgs : List String := " + strList(relY) + "\n")
+	b.WriteString("def listPrefixArgs : List String := " + strList(lstY) + "\n")
+	b.WriteString("/-- ListIPs (query without keyword): same default -/\n")
+	b.WriteString("def listDefaultsToSts : Bool := " + fg.LeanBool(lst) + "\n")
+	b.WriteString("def listKeyArgs : List String := " + strList(lstArgs) + "\n\n")
+	// Release: every path that reaches ipam.Release(key, ip) has established record.Key == key for the record re-read by ip
+	t, err := tree(s.bd, "FloatingIPPlugin", "Release")
+	if err != nil {
+		return "", err
+	}
+	guard, sawRelease := true, false
+	t.AllLeaves(func(facts map[string]bool, leaf *Node) {
+		byIP := -1
+		for i, ev := range leaf.Events {
+			if ev.String() == "(call @recv.ipam.ByIP @0.IP)" && byIP < 0 {
+				byIP = i
+			}
+			if ev.Op == "call" && ev.A[0].String() == "@recv.ipam.Release" {
+				sawRelease = true
+				if byIP < 0 || len(ev.A) != 3 || ev.A[2].String() != "@0.IP" {
+					guard = false
+					continue
+				}
+				rec := &Ex{Op: "sel", S: "Key", A: []*Ex{{Op: "proj", S: "0", A: []*Ex{{Op: "ev", S: strconv.Itoa(byIP)}}}}}
+				if !facts[mkEq(ev.A[1], rec).String()] || ev.A[1].String() != "@0.KeyObj.KeyInDB" {
+					guard = false
 				}
 			}
 		}
-		return true
 	})
-	return out
+	if !sawRelease {
+		return "", fmt.Errorf("%s: FloatingIPPlugin.Release no longer calls p.ipam.Release", bindGo)
+	}
+	b.WriteString("/-- FloatingIPPlugin.Release: every path reaching `ipam.Release(k.KeyInDB, r.IP)` re-read the record by ip and\n    established `record.Key == k.KeyInDB` first -/\n")
+	b.WriteString("def releaseMatchesKey : Bool := " + fg.LeanBool(guard) + "\n\n")
+	return b.String(), nil
+}
+
+func itemHandlerShapes(s *sources, ref *sources) (string, error) {
+	for _, f := range []struct {
+		cur, ref   *fg.Parsed
+		recv, name string
+		what       string
+	}{
+		{s.ap, ref.ap, "Controller", "ReleaseIPs", "two loops: pre-check + one fresh release request per releasable entry, then the releases in order"},
+		{s.ap, ref.ap, "Controller", "ListIPs", "query key, sort, PagingParams + Pagination, fips[start:end]"},
+		{s.pg, ref.pg, "", "PagingParams", "page / size go through ParsePage / ParseSize"},
+	} {
+		if err := sameAsRef(f.cur, f.ref, f.recv, f.name, f.what); err != nil {
+			return "", err
+		}
+	}
+	return "", nil
+}
+
+func clampItem(s *sources, fn, v string) (string, error) {
+	t, err := tree(s.pg, "", fn)
+	if err != nil {
+		return "", err
+	}
+	bad := func(why string) (string, error) {
+		return "", fmt.Errorf("%s: %s is no longer `\"\" ⇒ default; Atoi error ⇒ value; else a chain of comparisons on the parsed number` (%s):\n%s",
+			pageGo, fn, why, t.Pretty("  "))
+	}
+	const atoi = `(call strconv.Atoi @0$)`
+	if t.Cond == nil || t.Cond.String() != `(eq @0$ "")` || t.Then.Cond != nil || len(t.Then.Ret) != 1 {
+		return bad("empty-string test")
+	}
+	vars := map[string]string{atoi + "#0": v}
+	dflt, err := intLean(t.Then.Ret[0], vars)
+	if err != nil {
+		return bad(err.Error())
+	}
+	n := t.Else
+	if n.Cond == nil || n.Cond.String() != "(eq "+atoi+"#1 nil)" || n.Else.Cond != nil || len(n.Else.Ret) != 1 {
+		return bad("Atoi error test")
+	}
+	onErr, err := intLean(n.Else.Ret[0], vars)
+	if err != nil {
+		return bad(err.Error())
+	}
+	clamp, err := intTreeLean(n.Then, vars)
+	if err != nil {
+		return bad(err.Error())
+	}
+	name := strings.ToLower(fn[:1]) + fn[1:]
+	return fmt.Sprintf("/-- %s: value when the parameter is empty -/\ndef %sDefault : Int := %s\n", fn, name, dflt) +
+		fmt.Sprintf("/-- %s: what happens to a successfully parsed integer -/\ndef %sClamp (%s : Int) : Int :=\n  %s\n", fn, name, v, clamp) +
+		fmt.Sprintf("/-- %s: value when Atoi fails -/\ndef %sOnError : Int := %s\n", fn, name, onErr), nil
+}
+
+func itemPage(s *sources) (string, error) {
+	var b strings.Builder
+	dsz, err := s.pg.ConstInt("DefaultSize")
+	if err != nil {
+		return "", err
+	}
+	fmt.Fprintf(&b, "/-- page.DefaultSize -/\ndef defaultSize : Int := %d\n", dsz)
+	for _, c := range [][2]string{{"ParsePage", "page"}, {"ParseSize", "size"}} {
+		txt, err := clampItem(s, c[0], c[1])
+		if err != nil {
+			return "", err
+		}
+		b.WriteString(txt)
+	}
+	b.WriteString("\n")
+	// paginationResult(page, size, len) = (start, end, size)
+	t, err := tree(s.pg, "", "paginationResult")
+	if err != nil {
+		return "", err
+	}
+	if t.Cond != nil || len(t.Ret) != 3 || len(t.Events) != 0 {
+		return "", fmt.Errorf("%s: paginationResult no longer returns three expressions of (page, size, len):\n%s", pageGo, t.Pretty("  "))
+	}
+	vars := map[string]string{"@0": "page", "@1": "size", "@2": "len"}
+	var rs []string
+	for _, r := range t.Ret {
+		l, err := intLean(r, vars)
+		if err != nil {
+			return "", fmt.Errorf("%s: paginationResult: %v", pageGo, err)
+		}
+		rs = append(rs, l)
+	}
+	b.WriteString("/-- paginationResult(page, size, len) = (start, end, size) -/\n")
+	b.WriteString("def paginationResult (page size len : Int) : Int × Int × Int :=\n  (" + strings.Join(rs, ", ") + ")\n\n")
+	// pagin(start, end, size, len) = Page{…}
+	tp, err := tree(s.pg, "", "pagin")
+	if err != nil {
+		return "", err
+	}
+	if tp.Cond != nil || len(tp.Ret) != 1 || tp.Ret[0].Op != "struct" || tp.Ret[0].S != "Page" {
+		return "", fmt.Errorf("%s: pagin no longer returns one Page literal:\n%s", pageGo, tp.Pretty("  "))
+	}
+	pv := map[string]string{"@0": "start", "@1": "end_", "@2": "size", "@3": "len"}
+	fields := map[string]*Ex{}
+	for _, kv := range tp.Ret[0].A {
+		fields[kv.S] = kv.A[0]
+	}
+	for _, f := range []struct{ goName, lean, typ string }{
+		{"TotalPages", "paginTotalPages", "Int"}, {"Number", "paginNumber", "Int"},
+		{"NumberOfElements", "paginNumberOfElements", "Int"}, {"TotalElements", "paginTotalElements", "Int"},
+		{"Size", "paginSize", "Int"}, {"Last", "paginLast", "Bool"}, {"First", "paginFirst", "Bool"}} {
+		e, ok := fields[f.goName]
+		if !ok {
+			return "", fmt.Errorf("%s: pagin no longer sets Page.%s", pageGo, f.goName)
+		}
+		l, err := intLean(e, pv)
+		if err != nil {
+			return "", fmt.Errorf("%s: pagin: Page.%s: %v", pageGo, f.goName, err)
+		}
+		if f.typ == "Bool" {
+			l = "decide " + l
+		}
+		fmt.Fprintf(&b, "/-- pagin: Page.%s -/\ndef %s (start end_ size len : Int) : %s := %s\n", f.goName, f.lean, f.typ, l)
+	}
+	// Pagination(page, size, len) = paginationResult followed by pagin
+	tP, err := tree(s.pg, "", "Pagination")
+	if err != nil {
+		return "", err
+	}
+	if tP.Cond != nil || len(tP.Ret) != 3 || len(tP.Events) != 0 {
+		return "", fmt.Errorf("%s: Pagination no longer returns (start, end, &page):\n%s", pageGo, tP.Pretty("  "))
+	}
+	sub := map[string]*Ex{"@0": t.Ret[0], "@1": t.Ret[1], "@2": t.Ret[2], "@3": ident("@2")}
+	want := &Ex{Op: "addr", A: []*Ex{tp.Ret[0].subst(sub)}}
+	if !tP.Ret[0].eq(t.Ret[0]) || !tP.Ret[1].eq(t.Ret[1]) || !tP.Ret[2].eq(want) {
+		return "", fmt.Errorf("%s: Pagination is no longer paginationResult(page, size, len) followed by pagin(start, end, size, len):\n%s", pageGo, tP.Pretty("  "))
+	}
+	return b.String(), nil
+}
+
+// ---------- the translator
+
+func gen(repo string) (map[string]string, error) {
+	cur, err := loadRepo(repo)
+	if err != nil {
+		return nil, err
+	}
+	ref, err := loadRef()
+	if err != nil {
+		return nil, err
+	}
+	txt, _, err := generate(cur, ref)
+	if err != nil {
+		return nil, err
+	}
+	return map[string]string{"Keys.lean": txt}, nil
+}
+
+// generate returns the Lean text and the list of unrecognised shapes.
+func generate(cur, ref *sources) (string, []string, error) {
+	items := []item{
+		{"constants", itemConsts},
+		{"genKey", itemGenKey},
+		{"PoolPrefix / PoolAppPrefix", itemPoolPrefixes},
+		{"resolvePodKey", itemResolvePodKey},
+		{"GetAppTypePrefix", itemAppTypePrefix},
+		{"GetAppType", itemAppType},
+		{"FormatKey / resolveDeploymentName / ParseKey", func(s *sources) (string, error) { return itemFormatKey(s, ref) }},
+		{"NewKeyObj", itemNewKeyObj},
+		{"convert", itemConvert},
+		{"ReleaseIPs / ListIPs / Release wiring", func(s *sources) (string, error) { return itemHandlers(s, ref) }},
+		{"handler shapes", func(s *sources) (string, error) { return itemHandlerShapes(s, ref) }},
+		{"paging", itemPage},
+	}
+	var shapeErrs []string
+	var b strings.Builder
+	b.WriteString(fg.Header("key codec constants, formats, case tables; paging arithmetic; API list/release shape (C11)",
+		utilsGo, pageGo, apiGo, bindGo))
+	b.WriteString("set_option linter.unusedVariables false\nnamespace Galaxy.Generated.Keys\n\n")
+	if _, err := itemConsts(ref); err != nil {
+		return "", nil, fmt.Errorf("reference source: %v", err)
+	}
+	for _, it := range items {
+		txt, err := it.f(cur)
+		if err != nil {
+			shapeErrs = append(shapeErrs, it.name+": "+firstLines(err.Error(), 6))
+			if cur.consts == nil {
+				cur.consts = ref.consts
+			}
+			txt, err = it.f(ref)
+			if err != nil {
+				return "", nil, fmt.Errorf("reference source, %s: %v", it.name, err)
+			}
+			txt = "-- NOT RECOGNISED in the current source (see shapeErrors); value of the pinned reference source:\n" + txt
+		}
+		b.WriteString(txt)
+	}
+	b.WriteString("\n/-- source shapes this translator did not recognise (must be empty; the defs concerned then come from the pinned\n    reference source) -/\n")
+	b.WriteString("def shapeErrors : List String := " + strList(shapeErrs) + "\n")
+	b.WriteString("\nend Galaxy.Generated.Keys\n")
+	return b.String(), shapeErrs, nil
+}
+
+func firstLines(s string, n int) string {
+	l := strings.Split(s, "\n")
+	if len(l) > n {
+		l = append(l[:n], "…")
+	}
+	return strings.Join(l, "\n")
 }
